@@ -192,6 +192,45 @@ fn suggestion_works(payload: &str, target: &str, value: &str) -> Result<(), Stri
     }
 }
 
+/// the single right-hand-side expression of the assignment-like statement on `line`, if it has one
+fn find_rhs(prog: &J, line: u64) -> Option<J> {
+    fn in_stmts(ss: &J, line: u64) -> Option<J> {
+        for s in ss.as_array()? {
+            if s["line"].as_u64() == Some(line) {
+                return match s["s"].as_str()? {
+                    "assign" if s["op"] == "none" && s["vals"].as_array()?.len() == 1 => Some(s["vals"][0].clone()),
+                    "pnum" if s["e"]["e"] != "plit" => Some(s["e"].clone()),
+                    "rock" if s["vals"].as_array()?.len() == 1 && s["vals"][0]["e"] != "plit" => Some(s["vals"][0].clone()),
+                    _ => None,
+                };
+            }
+            for k in ["th", "el", "body"] {
+                if let Some(found) = s.get(k).and_then(|b| in_stmts(b, line)) {
+                    return Some(found);
+                }
+            }
+        }
+        None
+    }
+    prog.as_array()?.iter().find_map(|b| in_stmts(b, line))
+}
+
+fn named_value_is_computed(prog: &J, o: &J, naming: &Naming) -> Result<(), String> {
+    if let Some(expr) = find_rhs(prog, o["line"].as_u64().unwrap_or(0)) {
+        let say = json!([[{"s":"say","line":1,"e":expr}]]);
+        let p2 = Builder { naming }.program(&say);
+        let run = crate::exec::run(&p2, &crate::exec::RunCfg::default());
+        if run.is_ok() {
+            let printed = run.out_text();
+            let printed = printed.trim_end_matches('\n');
+            if printed != o["value"].as_str().unwrap() {
+                return Err(format!("the lint names the value {} but the interpreter computes {} for that right-hand side", o["value"], printed));
+            }
+        }
+    }
+    Ok(())
+}
+
 pub fn check_lint(rec: &J) -> Verdict {
     let naming = Naming::default();
     let prog = Builder { naming: &naming }.program(&rec["prog"]);
@@ -206,6 +245,17 @@ pub fn check_lint(rec: &J) -> Verdict {
     let obs: Vec<J> = diags.iter().map(diag_json).collect();
     let exp = rec["report"].as_array().unwrap();
     let fail = |m: String| Verdict::viol(m, json!({"report": obs.clone()}));
+    if std::env::var("VH_LINT_PARTS").map_or(false, |v| v == "values") {
+        // C17 only: every numeric value the linter names (it comes from the constant folder) is the value the interpreter computes
+        for (i, o) in obs.iter().enumerate() {
+            if o["pass"] == "boring" && !o["value"].as_str().unwrap_or("\"").starts_with('"') {
+                if let Err(m) = named_value_is_computed(&rec["prog"], o, &naming) {
+                    return fail(format!("diagnostic {}: {}", i + 1, m));
+                }
+            }
+        }
+        return Verdict::ok(!obs.is_empty());
+    }
     if exp.len() != obs.len() {
         return fail(format!("{} diagnostics, model {}", obs.len(), exp.len()));
     }
@@ -216,6 +266,13 @@ pub fn check_lint(rec: &J) -> Verdict {
         if e["pass"] == "boring" && e["det"] == true {
             if e["value"] != o["value"] {
                 return fail(format!("diagnostic {}: value {} (model {})", i + 1, o["value"], e["value"]));
+            }
+        }
+        if o["pass"] == "boring" && !o["value"].as_str().unwrap_or("\"").starts_with('"') {
+            // C17 / C18 on the implementation alone: the numeric value the lint names is what the interpreter computes for the
+            // statement's right-hand side (also where the model's number domain is silent, e.g. 1 over 3)
+            if let Err(m) = named_value_is_computed(&rec["prog"], o, &naming) {
+                return fail(format!("diagnostic {}: {}", i + 1, m));
             }
         }
         if o["pass"] == "boring" {
